@@ -103,7 +103,7 @@ func init() {
 		},
 		Assumptions: []string{
 			"mock genesis, live-network regime; lock periods shrunk (stake unit 20 s, fusion expiration 2 momentums, sentinel lock/revoke windows 30 s / 20 s) — the release logic is parametric in these constants",
-			"families covered: stake, plasma fusions, sentinel collateral and QSR deposit, pillar QSR deposit (pillar collateral is static in the explored histories); HTLC, liquidity stake and bridge unwrap need activated sporks and are not covered by this check",
+			"families covered: stake, plasma fusions, sentinel collateral and QSR deposit, pillar QSR deposit (pillar collateral is static in the explored histories), HTLC (spork created and activated by the base prefix, SporkMinHeightDelay shrunk to 2); liquidity stake and bridge unwrap are not covered by this check",
 			"liabilities are recomputed from the ledger alone by replaying each contract's receive blocks (audit.go)",
 		},
 		Run: run,
@@ -177,7 +177,7 @@ func families(thorough bool) []family {
 	pillar.bases = append(pillar.bases, hx.Base{Name: "pillar-qsr/deposited", Prefix: []ops.Op{
 		{K: "Call", S: "pillar-deposit-qsr", A: 1, V: 10}, M, M,
 	}})
-	return []family{stake, plasma, sent, pillar}
+	return []family{stake, plasma, sent, pillar, htlcFamily()}
 }
 
 func knownAddrs() []types.Address {
@@ -218,6 +218,14 @@ func check(r *xs.Result, s *hx.Step) bool {
 		pz, pq := a.qsrAndSentinel(types.PillarContract)
 		rows = append(rows, row{"pillar/ZNN", pz, a.pillarStorageZnn(), bal(types.PillarContract, types.ZnnTokenStandard)})
 		rows = append(rows, row{"pillar/QSR", pq, a.qsrStorage(types.PillarContract, knownAddrs()), bal(types.PillarContract, types.QsrTokenStandard)})
+		for z, l := range a.htlc() {
+			// the htlc contract holds nothing but locked deposits: balance must equal the liabilities exactly
+			b := bal(types.HtlcContract, z)
+			rows = append(rows, row{"htlc/" + z.String(), l, l, b})
+			if l.Cmp(b) != 0 {
+				a.bad("htlc:balance-differs-from-liabilities", "htlc contract holds %v of %v but owes %v", b, z, l)
+			}
+		}
 		rep := map[string]interface{}{"base": s.Base, "history": s.History}
 		for _, p := range a.problems {
 			r.Violate("C10:"+p.key, hx.Describe(s)+" ["+view+"]: "+p.msg, rep)
@@ -243,6 +251,7 @@ func check(r *xs.Result, s *hx.Step) bool {
 
 func run(c *xs.Ctx, r *xs.Result) {
 	shrinkLocks()
+	initHtlcOps()
 	if c.Replay != nil {
 		var rep struct {
 			Base    string   `json:"base"`
